@@ -1,4 +1,6 @@
 import UvModel.Lemmas.HeapPtrLemmas
+import UvModel.Props.C04Heap
+set_option linter.unusedSimpArgs false
 /-!
 # `src/heap-inl.h` (pointer tree) against the level-order array of `UvModel.Heap`
 
@@ -151,11 +153,11 @@ theorem siftUp_rep (lt : Nat → Nat → Bool) {n : Nat} : ∀ fuel (s : St) (f 
 
 /-! ## 4. heap_insert / heap_remove against `Heap.insert` / `Heap.remove`
 
-Full statements (kept as `Prop`s: NOT proved yet).  Proved towards them: the path lemmas (§2: both cursors
-are where the array model says), `swap_refines` + `swap_toArr` (§3: every swap either loop performs is the
-array swap) and `siftUp_rep` (the loop keeps the representation).  Missing: the link / unlink / replace
-steps (heap-inl.h:139-141, 181-214) as `Rep` updates, and the induction matching the loop *conditions* with
-`Heap.siftUp` / `Heap.siftDown` (`less_than` read through `ent`). -/
+`insert_refines` is proved below (`insert_refines_holds`, with the corollary `insert_order_holds`): clearing
+the new node, the path walk (§2), the link step heap-inl.h:139-141 (`link_rep`) and the sift-up loop
+(`siftUp_refines`: the C loop condition is the array model's, each swap is `Heap.swap` by §3).
+`remove_refines` is still only a statement: missing are the unlink / replace steps (heap-inl.h:181-214) as
+`Rep` updates and the sift-down loop matched with `Heap.siftDown`. -/
 
 def insert_refines : Prop :=
   ∀ (ent : Nat → Heap.Ent) (lt : Nat → Nat → Bool) (s : St) (f : Nat → Nat) (n x : Nat),
@@ -175,6 +177,141 @@ def insert_order_transfer : Prop :=
     Heap.Inv (toArr ent f n) →
     ∃ f', Rep (insert lt s x) f' (n + 1) ∧ Heap.Inv (toArr ent f' (n + 1)) ∧
       (insert lt s x).min = f' 0 ∧ ∀ j, j < n + 1 → Heap.lt (ent (f' j)) (ent (f' 0)) = false
+
+theorem g_toArr (ent : Nat → Heap.Ent) (f : Nat → Nat) {n k : Nat} (hk : k < n) :
+    Heap.g (toArr ent f n) k = ent (f k) := by
+  simp [Heap.g, toArr, hk]
+
+theorem size_toArr (ent : Nat → Heap.Ent) (f : Nat → Nat) (n : Nat) : (toArr ent f n).size = n := by
+  simp [toArr]
+
+theorem exchange_comm (f : Nat → Nat) (i j : Nat) : exchange f i j = exchange f j i := by
+  funext k; unfold exchange; grind
+
+/-- the sift-up loop is `Heap.siftUp` on the level-order array -/
+theorem siftUp_refines (ent : Nat → Heap.Ent) (lt : Nat → Nat → Bool)
+    (hlt : ∀ a b, lt a b = Heap.lt (ent a) (ent b)) {n : Nat} :
+    ∀ fuel (s : St) (f : Nat → Nat) (i : Nat), Rep s f n → i < n → i < fuel →
+    ∃ f', Rep (siftUp lt fuel s (f i)) f' n ∧ toArr ent f' n = Heap.siftUp (toArr ent f n) i := by
+  intro fuel
+  induction fuel with
+  | zero => intro s f i _ _ h; omega
+  | succ fuel ih =>
+    intro s f i h hi hf
+    have hp := h.parent i hi
+    unfold siftUp
+    rw [Heap.siftUp]
+    by_cases h0 : i = 0
+    · rw [if_pos h0] at hp
+      rw [if_neg (by rw [hp]; simp), dif_pos h0]
+      exact ⟨f, h, rfl⟩
+    · rw [if_neg h0] at hp
+      have hpn : (i - 1) / 2 < n := by omega
+      rw [dif_neg h0, hp, hlt]
+      simp only [g_toArr ent f hi, g_toArr ent f hpn]
+      have hnz : f ((i - 1) / 2) ≠ 0 := h.live _ hpn
+      by_cases hc : Heap.lt (ent (f i)) (ent (f ((i - 1) / 2))) = true
+      · rw [if_pos ⟨hnz, hc⟩, if_pos hc]
+        have hr := swap_rep (i := (i - 1) / 2) h hi (by omega)
+        have hx : exchange f ((i - 1) / 2) i ((i - 1) / 2) = f i := by simp [exchange]
+        obtain ⟨f', h1, h2⟩ := ih _ _ ((i - 1) / 2) hr hpn (by omega)
+        rw [hx] at h1
+        refine ⟨f', h1, ?_⟩
+        rw [h2, exchange_comm, swap_toArr ent f hi hpn]
+      · rw [if_neg (fun c => hc c.2), if_neg hc]
+        exact ⟨f, h, rfl⟩
+
+/-- the array with `x` appended at position `n` -/
+def snoc (f : Nat → Nat) (n x : Nat) : Nat → Nat := fun k => if k = n then x else f k
+
+theorem toArr_snoc (ent : Nat → Heap.Ent) (f : Nat → Nat) (n x : Nat) :
+    toArr ent (snoc f n x) (n + 1) = (toArr ent f n).push (ent x) := by
+  apply Array.ext
+  · simp [toArr]
+  · intro k h1 h2
+    have hk : k < n + 1 := by simpa [toArr] using h1
+    simp only [toArr, snoc, Array.getElem_push, List.getElem_toArray, List.getElem_map, List.getElem_range,
+      List.size_toArray, List.length_map, List.length_range]
+    grind
+
+/-- zeroing the cells of a node outside the tree (heap-inl.h:115-117) changes nothing represented -/
+theorem rep_clear {s : St} {f : Nat → Nat} {n x : Nat} (h : Rep s f n) (hx : ∀ i, f i ≠ x) :
+    Rep { s with m := setParent (setRight (setLeft s.m x 0) x 0) x 0 } f n := by
+  refine ⟨h.nelts, h.min, h.live, h.dead, h.inj, ?_, ?_, ?_⟩
+  · intro i hi; simp [hx i, h.left i hi]
+  · intro i hi; simp [hx i, h.right i hi]
+  · intro i hi; simp [hx i]; exact h.parent i hi
+
+/-- heap-inl.h:139-141 on a represented heap whose new node has NULL cells: the node becomes position `n` -/
+theorem link_rep {s : St} {f : Nat → Nat} {n x : Nat} (h : Rep s f n) (hx0 : x ≠ 0) (hx : ∀ i, f i ≠ x)
+    (hl : s.m.left x = 0) (hr : s.m.right x = 0) :
+    let s1 : St := { s with m := setParent s.m x (if n = 0 then 0 else f ((n - 1) / 2)) }
+    let s2 := store s1 (slotOf f (n + 1)) x
+    Rep { s2 with nelts := s2.nelts + 1 } (snoc f n x) (n + 1) := by
+  intro s1 s2
+  have hdead := h.dead
+  have hlive := h.live
+  have hne := @Rep.ne s f n h
+  have hcases : slotOf f (n + 1) = Slot.root ∧ n = 0 ∨
+      slotOf f (n + 1) = Slot.r (f ((n + 1) / 2 - 1)) ∧ n ≠ 0 ∧ (n + 1) % 2 = 1 ∨
+      slotOf f (n + 1) = Slot.l (f ((n + 1) / 2 - 1)) ∧ n ≠ 0 ∧ (n + 1) % 2 = 0 := by
+    unfold slotOf
+    by_cases hn : n = 0
+    · left; subst hn; simp
+    · have hq : ¬ (n + 1 ≤ 1) := by omega
+      rw [if_neg hq]
+      by_cases hodd : (n + 1) % 2 = 1
+      · right; left; rw [if_pos hodd]; exact ⟨rfl, hn, hodd⟩
+      · right; right; rw [if_neg hodd]; exact ⟨rfl, hn, by omega⟩
+  have hpx := hx ((n + 1) / 2 - 1)
+  have hmin := h.min
+  have hnel := h.nelts
+  rcases hcases with ⟨e, hn⟩ | ⟨e, hn, hodd⟩ | ⟨e, hn, hodd⟩ <;>
+  · refine ⟨?_, ?_, ?_, ?_, ?_, ?_, ?_, ?_⟩ <;> simp only [s2, s1, e, store, snoc]
+    · simp [hnel]
+    · grind
+    · intro i hi; grind
+    · intro i hi; grind
+    · intro i j hi hj; have := h.inj i j; have := hx i; have := hx j; grind
+    · intro i hi; have := h.left i; have := hx i
+      simp only [setLeft_left, setRight_left, setParent_left]; grind
+    · intro i hi; have := h.right i; have := hx i
+      simp only [setLeft_right, setRight_right, setParent_right]; grind
+    · intro i hi; have := h.parent i; have := hx i
+      simp only [setLeft_parent, setRight_parent, setParent_parent]; grind
+
+theorem store_nelts (s : St) (sl : Slot) (v : Nat) : (store s sl v).nelts = s.nelts := by
+  cases sl <;> rfl
+
+/-- **heap_insert refines `Heap.insert`**: for every represented heap, every fresh node and every key
+assignment, the memory after the C statements represents a complete tree with `n + 1` nodes whose
+level-order key array is `Heap.insert` of the array before -/
+theorem insert_refines_holds : insert_refines := by
+  intro ent lt s f n x hlt h hx0 hx
+  have hnel : s.nelts = n := h.nelts
+  subst hnel
+  have hc := rep_clear h hx
+  have hpc := path_correct_insert hc
+  have hd := (path_correct_insert_deref hc).2
+  have hlink := link_rep hc hx0 hx (by simp) (by simp)
+  simp only [store_nelts] at hlink
+  unfold insert
+  simp only [hpc, hd, store_nelts]
+  have hxs : x = snoc f s.nelts x s.nelts := by simp [snoc]
+  obtain ⟨f', h1, h2⟩ := siftUp_refines ent lt hlt (s.nelts + 1) _ _ s.nelts hlink (by omega) (by omega)
+  rw [← hxs] at h1
+  refine ⟨f', h1, ?_⟩
+  rw [h2, toArr_snoc, Heap.insert, size_toArr]
+
+/-- heap order and "`heap_min` is a least element" transfer from `Props/C04Heap` to the pointer heap -/
+theorem insert_order_holds : insert_order_transfer := by
+  intro _ ent lt s f n x hlt h hx0 hx hinv
+  obtain ⟨f', h1, h2⟩ := insert_refines_holds ent lt s f n x hlt h hx0 hx
+  have hinv' : Heap.Inv (toArr ent f' (n + 1)) := by rw [h2]; exact Heap.insert_inv _ _ hinv
+  refine ⟨f', h1, hinv', h1.min, ?_⟩
+  intro j hj
+  have := Heap.min_is_min _ hinv' j (by rw [size_toArr]; exact hj)
+  rwa [g_toArr ent f' hj, g_toArr ent f' (by omega)] at this
 
 /-! ## non-vacuity: heaps built by the model's own `heap_insert` -/
 
